@@ -3,6 +3,7 @@ package analyzer
 import (
 	"fmt"
 	"testing"
+	"time"
 
 	"github.com/juev/hledger-lsp/internal/include"
 	"github.com/juev/hledger-lsp/internal/parser"
@@ -46,6 +47,20 @@ func TestVerifWitness_C15_resolved_list_order(t *testing.T) {
 	}
 	if len(seen) > 1 {
 		fmt.Printf("WITNESS-FAILS four included files with different payees/commodities: %d different payee/commodity list orders in 200 runs\n", len(seen))
+		return
+	}
+	fmt.Println("WITNESS-HOLDS")
+}
+
+// C06 parser.(*Parser).parseAmount#ensures.exponent_bounded: an amount with an absurd exponent must not cost seconds of arithmetic.
+func TestVerifWitness_C06_extreme_exponent(t *testing.T) {
+	j, _ := parser.Parse("2024-01-01 x\n    expenses:food  1E4000000 USD\n    assets:cash  1 USD\n")
+	t0 := time.Now()
+	for i := range j.Transactions {
+		CheckBalance(&j.Transactions[i])
+	}
+	if d := time.Since(t0); d > 300*time.Millisecond {
+		fmt.Printf("WITNESS-FAILS balancing '1E4000000 USD' against '1 USD' (a 3-line document) took %v\n", d)
 		return
 	}
 	fmt.Println("WITNESS-HOLDS")
